@@ -68,6 +68,24 @@ func (f *Frame) execInstr(cur *blockCur, in ssa.Instruction) {
 		f.execConvert(cur, x)
 	case *ssa.ChangeType:
 		v := f.val(x.X)
+		if st, ok := x.Type().Underlying().(*types.Struct); ok && v.S != "" {
+			from := c.so.structSort(x.X.Type(), x.X.Type().Underlying().(*types.Struct))
+			to := c.so.structSort(x.Type(), st)
+			if from != to {
+				// conversion between distinct named struct types with identical fields: rebuild the value
+				fst := x.X.Type().Underlying().(*types.Struct)
+				var fs []string
+				for i := 0; i < st.NumFields(); i++ {
+					fs = append(fs, fmt.Sprintf("(%s %s)", c.so.fieldSel(from, fst, i), v.S))
+				}
+				term := "mk_" + to
+				if len(fs) > 0 {
+					term = fmt.Sprintf("(mk_%s %s)", to, strings.Join(fs, " "))
+				}
+				f.named(x, term)
+				break
+			}
+		}
 		v.T = x.Type()
 		f.setVal(x, v)
 	case *ssa.ChangeInterface:
@@ -626,7 +644,7 @@ func (f *Frame) panicHere(cur *blockCur, in ssa.Instruction, what string) {
 		goal = or(alts...)
 	}
 	src := f.c.eng.exprTextAt(f.rootFn(), in)
-	f.c.addObligation(&Obligation{Name: f.oblName("panic", src), Class: "panic", Props: f.safetyProps("panic"), Guard: cur.reach, Goal: goal,
+	f.c.addObligation(&Obligation{Name: f.oblName("panic", src), Class: "panic", Props: f.panicProps(), Guard: cur.reach, Goal: goal,
 		Pos: f.c.eng.posString(in.Pos()), Src: src})
 	f.panicPaths = append(f.panicPaths, cur.reach)
 	cur.dead = true
@@ -644,6 +662,12 @@ func (f *Frame) execReturn(cur *blockCur, x *ssa.Return) {
 		}
 	}
 	if f.callerFrame == nil && f.con != nil {
+		// `panics when E` is exact: a normal return is only possible when E did not hold at entry
+		for _, cl := range f.con.PanicsWhen {
+			t := f.evalClauseAt(cl, nil, f.entry, nil)
+			f.c.addObligation(&Obligation{Name: f.oblName("must-panic", clauseLabel(cl)), Class: "must-panic", Props: f.clauseProps(cl), Guard: cur.reach, Goal: not(t),
+				Src: "returns normally only if not (" + cl.Text + ")"})
+		}
 		for _, cl := range f.con.Ensures {
 			t := f.evalClauseAt(cl, cur.b, cur.st, vs)
 			f.c.addObligation(&Obligation{Name: f.oblName("ensures", clauseLabel(cl)), Class: "ensures", Props: f.clauseProps(cl), Guard: cur.reach, Goal: t, Src: cl.Text})
